@@ -2,6 +2,7 @@ package main
 
 import (
 	"fmt"
+	"os"
 	"go/token"
 	"go/types"
 	"strings"
@@ -110,6 +111,9 @@ func (fr *Frame) runDefer(d deferred) {
 			if _, isAbort := r.(pathAbort); isAbort {
 				panic(r)
 			}
+			if _, isAbort := r.(abortG); isAbort {
+				panic(r)
+			}
 			fr.panicking = true
 			fr.panicVal = r
 		}
@@ -128,6 +132,9 @@ func (fr *Frame) run() {
 			return
 		}
 		if _, isAbort := r.(pathAbort); isAbort {
+			panic(r)
+		}
+		if _, isAbort := r.(abortG); isAbort {
 			panic(r)
 		}
 		if _, isGo := r.(goPanic); !isGo {
@@ -467,6 +474,9 @@ func (p *Path) call(fn Value, args []Value, caller *Frame, pos token.Pos) Value 
 
 func (p *Path) callFn(fn *ssa.Function, args []Value, env []Value, caller *Frame) Value {
 	name := fn.String()
+	if p.eng.traceOn && strings.Contains(name, "drand/drand") && !strings.Contains(name, "zzverif") {
+		fmt.Fprintf(os.Stderr, "%*scall %s [g%d]\n", p.depth, "", name, p.sched.cur.id)
+	}
 	if fn.Origin() != nil {
 		name = fn.Origin().String()
 	}
